@@ -100,7 +100,7 @@ fn roots_for<T: Fx>(r: &mut Rec, rng: &mut StdRng, scale: usize) {
         let n = if i % 5 == 0 { all[rng.gen_range(0..all.len())] } else { small[rng.gen_range(0..small.len())] };
         roots_of(r, *x, &[n, 2 + (i % 2) as u32]);
     }
-    for i in 0..(if quick { 120 } else { 250 * scale }) {
+    for i in 0..(if quick { 80 } else { 250 * scale }) {
         let x = random_value::<T>(rng);
         let n = match i % 10 {
             0 => all[rng.gen_range(0..all.len())],
@@ -156,10 +156,13 @@ fn powi_for<T: Fx>(r: &mut Rec, rng: &mut StdRng, scale: usize) {
             powi(r, x, e);
         }
     }
+    // limit exponents: the FULL product with every base in every tier
+    let limit_exps: &[i64] = &[0, 1, -1, 2, -2, 3, -3, i64::MAX, i64::MIN, i64::MIN + 1, i64::MAX - 1];
     for (i, x) in bases.iter().enumerate() {
         for (j, e) in exps.iter().enumerate() {
-            // quick: small exponents for every base, the others thinned out
-            if quick && !(j < 12 && (i + j) % 3 == 0) && (i + 2 * j) % 11 != 0 {
+            // quick: the other exponents are thinned out, except for the first bases (0, +-1 sub-unit, +-ONE and
+            // its neighbours, +-2) where the exponents at the overflow / precision edges matter most
+            if quick && !limit_exps.contains(e) && !(i < 13 && (i + j) % 3 == 0) && (i + 2 * j) % 11 != 0 {
                 continue;
             }
             powi(r, *x, *e);
@@ -167,13 +170,13 @@ fn powi_for<T: Fx>(r: &mut Rec, rng: &mut StdRng, scale: usize) {
     }
     let bnd = boundary_values::<T>();
     for (i, x) in bnd.iter().enumerate() {
-        if quick && i % 12 != 0 {
+        if quick && i % 16 != 0 {
             continue;
         }
         powi(r, *x, exps[rng.gen_range(0..14)]);
         powi(r, *x, exps[rng.gen_range(0..exps.len())]);
     }
-    for i in 0..(if quick { 150 } else { 300 * scale }) {
+    for i in 0..(if quick { 100 } else { 300 * scale }) {
         let x = random_value::<T>(rng);
         let e = match i % 6 {
             0 => rng.gen_range(-40..40),
